@@ -199,6 +199,15 @@ func (c *Case) sample() json.RawMessage {
 	cp.Keys = cut(trunc(cp.Keys, 12))
 	cp.Vals = cut(trunc(cp.Vals, 12))
 	cp.Extra = cut(trunc(cp.Extra, 6))
+	cp.Prefix = cut(cp.Prefix)
+	if len(cp.Ver) > 48 {
+		cp.Ver = cp.Ver[:48]
+	}
+	for i := range cp.Scans {
+		sc := cp.Scans[i]
+		sc.Start, sc.End = cut([]Hex{sc.Start})[0], cut([]Hex{sc.End})[0]
+		cp.Scans = append(append([]ScanSpec{}, cp.Scans[:i]...), append([]ScanSpec{sc}, cp.Scans[i+1:]...)...)
+	}
 	if len(cp.Scans) > 4 {
 		cp.Scans = cp.Scans[:4]
 	}
